@@ -93,6 +93,10 @@ def race_cases(rng, guarded, cfix, n_random):
         out.append(case(th, [0] * k + [1] * 3 + [0] * 7 + [2] * k + [1] * 4 + [3] * k + [4] * 2))
     else:
         out.append(case(th, [0] * k + [1] + [0] * 4 + [2] * k + [1] * 3 + [3] * k + [4] * 2))
+    # the second deleter pauses after j of its storage calls, the first delete and the re-claim run, then it resumes
+    # (covers every place where a removal could read something too early)
+    for j in range(1, 8):
+        out.append(case(th, [0] * k + [1] * j + [0] * 7 + [2] * k + [1] * 8 + [0] * 7 + [3] * k + [4] * 2))
     # cleanup-style double delete: the second deleter is another session of the same client
     for _ in range(n_random):
         pre = [0] * k
